@@ -83,6 +83,8 @@ def load():
     L.plot_circuit = display_circuit.plot_circuit
     L.VIS_DURATIONS = display_circuit.VISUALIZATION_DURATION_REGISTRY
     L.TransformConstructor = TransformConstructor
+    from qce_circuit.visualization.visualize_circuit import intrf_factory_draw_components as ifdc
+    L.DrawComponentFactoryManager = getattr(ifdc, "DrawComponentFactoryManager", None)
     L.InitialStateEnum = InitialStateEnum
     L.InitialStateContainer = InitialStateContainer
     L.kind_class = {}
